@@ -118,6 +118,12 @@ var c05Templates = []string{
 	"class K { static #x = 1; static m() { [K.#x = $0] = []; return K.#x } } return K.m();",
 	"class A { set y(v) { this.yy = v } } class B extends A { m() { [super.y = $0] = []; return this.yy } } return new B().m();",
 	"class A { set y(v) { this.yy = v } } class B extends A { m() { ({a: super.y = $0} = {}); return this.yy } } return new B().m();",
+	"class A { set x(v) { this.v = v } get x() { return this.v === undefined ? 2 : this.v } } class B extends A { m() { super.x **= $0; return this.v } } return new B().m();",
+	"class A { set x(v) { this.v = v } get x() { return this.v } } class B extends A { m() { super.x ??= $0; super.x ||= $1; super.x &&= 5; return this.v } } return new B().m();",
+	"class A { set x(v) { this.v = v } get x() { return this.v === undefined ? 2 : this.v } } class B extends A { async m() { super.x **= 3; super[$0] **= 2; return this.v } } return new B().m();",
+	"class A { set x(v) { this.v = v } get x() { return this.v } } class B extends A { async m() { super.x ??= $0; super.x ||= 4; super.x &&= $1; return this.v } } return new B().m();",
+	"class A { static set x(v) { this.v = v } static get x() { return this.v } } class B extends A { static m() { super.x ??= $0; super.x **= 2; return this.v } } return B.m();",
+	"var o = {__proto__: {set x(v) { this.v = v }, get x() { return this.v }}, m() { super.x ||= $0; super.x **= 2; return this.v }}; return o.m();",
 	// async / generators
 	"return (async () => [this === undefined, await $0])();",
 	"return (async function() { return [this, arguments[0], await $0] }).call(a, $1);",
